@@ -178,9 +178,9 @@ func genT(t *rapid.T, depth int, nested bool) []tNode {
 	}
 	var out []tNode
 	for i := 0; i < n; i++ {
-		kinds := []string{"lit", "esc", "named", "braced", "op", "op"}
+		kinds := []string{"lit", "esc", "named", "braced", "escbrace", "op", "op"}
 		if depth <= 0 {
-			kinds = kinds[:4]
+			kinds = kinds[:5]
 		}
 		k := rapid.SampledFrom(kinds).Draw(t, "kind")
 		switch k {
@@ -198,6 +198,9 @@ func genT(t *rapid.T, depth int, nested bool) []tNode {
 			}
 		case "esc":
 			out = append(out, tNode{K: "esc"})
+		case "escbrace":
+			// an escaped reference, `$${NAME}`: a literal dollar followed by literal text with balanced braces
+			out = append(out, tNode{K: "esc"}, tNode{K: "lit", Text: "{" + rapid.SampledFrom(c07Names).Draw(t, "name") + "}"})
 		case "named", "braced":
 			// `$NAME` directly followed by `$$`/`${` is fine; followed by name char is handled above
 			out = append(out, tNode{K: k, Text: rapid.SampledFrom(c07Names).Draw(t, "name")})
